@@ -924,7 +924,12 @@ def _optional_conv(stmts: List[ast.stmt], x: str, at: ast.stmt, ret: Optional[as
                     out.append(_fresh(ast.copy_location(ast.Return(value=e), at)))
                 else:
                     a_ = _fresh(ast.copy_location(ast.Assign(targets=[ast.Name(id=x, ctx=ast.Store())], value=e, type_comment=None), at))
-                    if never_none:
+                    if never_none and isinstance(e, ast.Constant) and not plain:
+                        # x = "name"; return getattr(self, x)(..)  is  return self.name(..)
+                        r2 = _Sub({x: e}).visit(clone_ast(ret))
+                        ast.fix_missing_locations(r2)
+                        out += [_fresh(ast.copy_location(r2, at))]
+                    elif never_none:
                         out += [a_, _fresh(ast.copy_location(the_ret, at))]
                     else:
                         t_ = ast.Compare(left=ast.Name(id=x, ctx=ast.Load()), ops=[ast.IsNot()], comparators=[ast.Constant(value=None)])
@@ -1009,8 +1014,17 @@ def _tail_helper_body(model: Model, fi: FuncInfo, body: List[ast.stmt], caller_n
         _kw_order = written if written != rest_ else None
     else:
         _kw_order = None
-    if h is fi or h.name in _KEEP or isinstance(h.node, ast.Lambda) or not h.is_private or any(ast.unparse(d) != "staticmethod" for d in h.node.decorator_list):
+    if h is fi or h.name in _KEEP or isinstance(h.node, ast.Lambda) or not h.is_private:
         return None
+    decos_ = [ast.unparse(d) for d in got[0].node.decorator_list]
+    if any(d_ not in ("staticmethod", "classmethod") for d_ in decos_):
+        return None
+    if "classmethod" in decos_:
+        # a class method whose statements (as read: a finder over a class-level table is its if-chain) no longer
+        # mention `cls` is a static helper
+        if not h.pos_params or any(isinstance(x_, ast.Name) and x_.id == h.pos_params[0] for st_ in h.node.body for x_ in ast.walk(st_)):
+            return None
+        skip = 1
     h0 = got[0]
     n_sites = len(call_sites_of(model, h0))
     if n_sites == 0 and h.cls is not None and h.cls is not fi.cls:
